@@ -243,6 +243,41 @@ def run(prop: str, tier: str, seed: int) -> int:
         rep.family("minimised-by-local-search", 1, 1)
         rep.nontrivial += 1
     rep.notes.append(f"local search reached {n_zero} plans that the real counter calls error-free")
+    # ... and the other way round: a hill climber over ARBITRARY plans that MAXIMISES the real error count probes
+    # the declared upper bound (inconsistent plans such as "everybody at home every day" are the extreme ones)
+    for k in range({"quick": 8, "thorough": 40}[tier]):
+        n = rng.choice([2, 4, 4, 6])
+        rounds = rng.choice([1, 2, 2, 3])
+        ll = rounds * n - 1
+        if k % 2 == 0:
+            c = {}
+        else:
+            hmin, amin = rng.randint(1, min(3, ll)), rng.randint(1, min(3, ll))
+            smin = rng.randint(0, min(3, ll))
+            c = {"hmin": hmin, "hmax": rng.randint(hmin, ll), "amin": amin, "amax": rng.randint(amin, ll),
+                 "smin": smin, "smax": rng.randint(smin, ll)}
+        inst = tp.make_instance(n, rounds, c)
+        eo = ErrObj(inst)
+        days = (n - 1) * rounds
+        if k % 4 < 2:     # start from "the same (inconsistent) day over and over, everybody at home"
+            day0 = [rng.choice([o for o in range(1, n + 1) if o != t + 1]) for t in range(n)]
+            p = [day0[:] for _ in range(days)]
+        else:
+            p = [[rng.randint(-n, n) for _ in range(n)] for _ in range(days)]
+        v = eo.eval(p)
+        for _ in range({"quick": 4000, "thorough": 15000}[tier]):
+            d, t = rng.randrange(days), rng.randrange(n)
+            old = p[d][t]
+            p[d][t] = rng.randint(-n, n)
+            w = eo.eval(p)
+            if w >= v:
+                v = w
+            else:
+                p[d][t] = old
+        cases.append({"id": f"maximised-{k}", "cfg": tp.cfg_of(inst), "ub": small(eo.ub),
+                      "plans": [{"plan": [r[:] for r in p], "errors": small(v)}]})
+        rep.family("maximised-by-local-search", 1, 1)
+        rep.nontrivial += 1
     # long seasons: day indices beyond the int8 range (scratch arrays must be wide enough)
     n_long = {"quick": 24, "thorough": 160}[tier]
     for k in range(n_long):
